@@ -72,6 +72,16 @@ def main():
                     "CONSTANTS\n" + toy_curve_consts(p, d, zeta) + (" R = %d\n Mode = \"%s\"\n" % (r, mode)) + INT_OPS +
                     "INIT Init\nNEXT Next\nINVARIANT %s\nCHECK_DEADLOCK FALSE\n" % inv)
                 index.append(name)
+    # field wrappers: (P, ByteBase, N8)
+    for (p, bb, n8) in [(13, 4, 2), (97, 16, 2), (29, 4, 3), (11, 2, 4), (61, 4, 3)]:
+        for mode in ["arith", "bytes"]:
+            if mode == "bytes" and bb ** (3 * n8) > 300000:
+                continue
+            name = "MC_Field_p%d_b%d_%s.cfg" % (p, bb, mode)
+            open(os.path.join(spec, "cfg", name), "w").write(
+                "CONSTANTS\n P = %d\n ByteBase = %d\n N8 = %d\n Mode = \"%s\"\nINIT Init\nNEXT Next\nINVARIANT %s\nCHECK_DEADLOCK FALSE\n"
+                % (p, bb, n8, mode, "InvArith" if mode == "arith" else "InvBytes"))
+            index.append(name)
     # the API state machine on toy curves
     for (p, d) in TOY[:5]:
         n = order(p, d); r = n // 4
